@@ -13,7 +13,8 @@ def gen_cases(ctx, n_graphs, cfgs_per_graph):
     out = []
     for gi in range(n_graphs):
         # every 6th graph is directed with >= 36 thin layers (long runs of the "all seen layers" branch of the BFS)
-        gd = G.gen_deep_directed(rng, ctx.budget(1500, 3000), min_layers=36) if gi % 6 == 5 else G.gen_graph(rng, cap=ctx.budget(400, 3000))
+        gd = (G.gen_deep_directed(rng, ctx.budget(1500, 3000), min_layers=36) if gi % 6 == 5 else
+              G.gen_overflow_matrix_graph(rng, 400) if gi % 6 == 2 and gi % 12 == 2 else G.gen_graph(rng, cap=ctx.budget(400, 3000)))
         layers, dist = G.ref_bfs(gd, [gd["central"]])
         starts = G.gen_starts(rng, gd, dist)
         for _ in range(cfgs_per_graph):
